@@ -83,6 +83,12 @@ class Prop(PropBase):
             scn_all.append(scen.mixed_scenario(rng, self.L, t, f'c02_zerogap_{t}', cfg, malformed_p=0.0, badblk_p=0.0, gap_p=0.0, difop_at=0, zero_gap=True,
                                                start_az=rng.choice([33000, 35000, 35900]), step=rng.choice([20, 40, 80]), dist=far, dual=bool(k % 2), npk=3,
                                                fov=(1000, 35000), rpm=rng.choice([600, 1200])))
+        # Ruby Plus 80: the 80v variant from the first packet on, a change 80 -> 80v and 80v -> 80 mid-stream (the firing table follows
+        # the model byte of each packet), with steps and ranges large enough for the tables to tell
+        for k, ms_ in enumerate(([3], [2, 2, 3, 3], [3, 3, 2, 2], [2], [0, 3])):
+            cfg = scen.rand_cfg(rng, dense=0, wait=1, pktcb=0, min=0.0, max=0.0)
+            scn_all.append(scen.mixed_scenario(rng, self.L, 'RSP80', f'c02_RSP80_model_{k}', cfg, malformed_p=0.0, badblk_p=0.0, gap_p=0.0, difop_at=0,
+                                               step=80, dist=far, npk=4, rpm=1200, model_seq=ms_))
         # Bpearl: v3/v4 x normal/reversed with non-zero horizontal calibration
         for v4 in (False, True):
             for rev in (0, 1):
